@@ -63,6 +63,7 @@ func (g *Gen) end() {
 	}
 	g.scOut.Write(b)
 	g.scOut.WriteByte('\n')
+	g.scOut.Flush() // on disk at once: should the process not survive a later scenario, its history is known
 	g.nScn++
 }
 
